@@ -202,18 +202,8 @@ def _worker_init():
 
 # ------------------------------------------------------------------ Coq rendering
 PIPE_HDR = ("From Coq Require Import String ZArith List Bool.\nFrom SynRBL Require Import Base.Dict Base.Strs Base.ListX Model.Comp Model.Matcher "
-            "Model.Constraint Model.Pipeline Gen.GenRules Gen.GenConst.\nImport ListNotations.\nOpen Scope string_scope. Open Scope Z_scope.\n")
+            "Model.Constraint Model.Pipeline Model.Tables Gen.GenRules Gen.GenConst.\nImport ListNotations.\nOpen Scope string_scope. Open Scope Z_scope.\n")
 PIPE_DEFS = """
-Fixpoint look {A} (l : list (string * A)) (dflt : A) (s : string) : A :=
-  match l with [] => dflt | (k, v) :: t => if String.eqb s k then v else look t dflt s end.
-Fixpoint look2 {A} (l : list (string * string * A)) (dflt : A) (a b : string) : A :=
-  match l with [] => dflt | (k1, k2, v) :: t => if String.eqb a k1 && String.eqb b k2 then v else look2 t dflt a b end.
-Definition mk (st : list (string * string)) (pa : list (string * bool)) (de : list (string * dict)) (cc : list (string * Z))
-   (ms : list (string * (bool * string))) (im : list (string * imp_result)) (pq : list (string * option string))
-   (cf : list (string * string * Z)) : oracles :=
-  {| strip := fun s => look st s s; parse_ok := look pa false; decomp := look de []; ccount := look cc 0;
-     mcs_state := look ms (true, "ORACLE-MISSING"); impute := look im (ImpFail "ORACLE-MISSING"); pp := look pq None;
-     confidence := look2 cf (-1) |}.
 Definition ostr (a b : option string) : bool := opt_eqb String.eqb a b.
 Definition row_eq (r : row) (e : string * string * bool * option string * option string * option (list string) * option Z) : bool :=
   let '(i, x, s, b, iss, ru, c) := e in
@@ -374,7 +364,7 @@ def eval_pipeline_cases(ctx, batches, name):
             ctx.mismatch("batch not renderable", b["inputs"][:3], str(e), None)
     if not exprs:
         return
-    rc, out = sh("timeout 1500 make -j%d Model/Pipeline.vo Gen/GenRules.vo Gen/GenConst.vo 2>&1" % NPROC, cwd=COQ)
+    rc, out = sh("timeout 1500 make -j%d Model/Pipeline.vo Model/Tables.vo Gen/GenRules.vo Gen/GenConst.vo 2>&1" % NPROC, cwd=COQ)
     if rc != 0:
         ctx.broken.append({"what": "pipeline model does not build", "detail": out[-1500:]})
         return
